@@ -6,8 +6,9 @@ Tie to /repo (correspondence, general stream):
   and on the Lean model (Drivers/C19.lean, exact rationals: the model receives the exact
   values of the floats the object stores and of cos/sin of the angles) and compared with
   1e-12 on unit-scale data; the shape logic of vectorised calls, the position bookkeeping of
-  the constructors / frommatrix / __getitem__ and the detector extents of the factories are
-  compared with their model functions as well.
+  the constructors / frommatrix / __getitem__, the vectors the constructors derive through
+  transform_system (default frame carried along) and the detector extents of the factories
+  are compared with their model functions as well.
 Oracle (independent of the model, evaluated on the real code): the relations of the
 property themselves.
 """
@@ -180,6 +181,19 @@ def gen_spec(rng, cls, how, variant):
                 else:
                     a, b = orth_pair(rng)
                     s['axes_init'] = [a, b]
+    sp = variant.get('special')
+    if sp and how == 'ctor':
+        # collinear branches of transform_system / rotation_matrix_from_to: the principal vector
+        # is a positive multiple of the default ("dilation only") or opposite to it
+        k = {'neg': -1.5, 'scaled': 2.5}[sp]
+        if cls == 'par2':
+            s['pos'] = [0.0, k]
+        elif cls == 'fan':
+            s['s2d'] = [0.0, k]
+        elif cls == 'par3e':
+            s['pos'] = [0.0, k, 0.0]
+        else:
+            s['axis'] = [0.0, 0.0, k]
     if cls in ('fan', 'cone'):
         s['rs'] = round(rng.uniform(0.5, 9), 2)
         s['rd'] = round(rng.uniform(0.0, 7), 2)
@@ -297,6 +311,8 @@ def all_variants(cls, quick):
     for b in base:
         out.append(('ctor', dict(b)))
     out.append(('ctor', dict(pos=1, translation=1, ndarray_args=1)))
+    out.append(('ctor', dict(special='neg', translation=1)))
+    out.append(('ctor', dict(special='scaled')))
     for fm in [dict(), dict(translation=1), dict(scaled=1, translation=1)]:
         out.append(('frommatrix', dict(fm)))
     if cls == 'par3e':
@@ -320,7 +336,8 @@ def all_variants(cls, quick):
                     ('ctor', dict(det=det, axes=1, pos=1, axis=1, translation=1)),
                     ('frommatrix', dict(det=det, translation=1)),
                     ('frommatrix', dict(det=det, perm=1, translation=1))]
-        ext += [('ctor', dict(pitch=1)), ('ctor', dict(pitch=1, axis=1, translation=1)),
+        ext += [('ctor', dict(det='cyl', special='neg', pitch=1)),
+                ('ctor', dict(pitch=1)), ('ctor', dict(pitch=1, axis=1, translation=1)),
                 ('ctor', dict(shifts=1)), ('ctor', dict(shifts=1, pitch=1, axis=1, pos=1,
                                                         translation=1)),
                 ('ctor', dict(shifts=1, pitch=1, det='cyl', translation=1)),
@@ -819,9 +836,66 @@ def oracle_frame(s, g):
     return bad
 
 
+def frame_case(s, g):
+    """protocol line for the derived default frame and the real object's derived vectors
+    (None when nothing was derived)"""
+    cls = s['cls']
+    if s['how'] != 'ctor':
+        return None
+    t = np.asarray(g.translation, dtype=float)
+    if cls in ('par2', 'fan'):
+        if 'axis_init' in s:
+            return None
+        prin = (np.asarray(g.det_pos_init, dtype=float) - t) if cls == 'par2' else \
+            np.asarray(g.src_to_det_init, dtype=float)
+        pn = prin / np.linalg.norm(prin)
+        return 'frame kind=2d v=' + vec(pn), {'prin': pn, 'a0': np.asarray(g.detector.axis, dtype=float)}
+    if cls == 'par3e':
+        if 'axes_init' in s:
+            return None
+        prin = np.asarray(g.det_pos_init, dtype=float) - t
+        pn = prin / np.linalg.norm(prin)
+        ax = np.asarray(g.detector.axes, dtype=float)
+        return 'frame kind=euler v=' + vec(pn), {'prin': pn, 'a0': ax[0], 'a1': ax[1]}
+    exp = {'prin': np.asarray(g.axis, dtype=float)}
+    if ('pos' if cls == 'par3a' else 's2d') not in s:
+        exp['pos'] = (np.asarray(g.det_pos_init, dtype=float) - t) if cls == 'par3a' else \
+            np.asarray(g.src_to_det_init, dtype=float)
+    if 'axes_init' not in s:
+        ax = np.asarray(g.detector.axes, dtype=float)
+        exp['a0'], exp['a1'] = ax[0], ax[1]
+    if len(exp) == 1:
+        return None
+    return 'frame kind=axis v=' + vec(g.axis), exp
+
+
+def run_frames(ctx, built):
+    """derived constructor vectors: model (rotFromTo of the default frame) vs the real object"""
+    cases, lines = [], []
+    for s, g in built:
+        st, fc = guarded(lambda: frame_case(s, g))
+        if st != 'ok' or fc is None:
+            continue
+        cases.append((s, fc[1]))
+        lines.append(fc[0])
+    outs = core.run_driver('C19', lines)
+    for (s, exp), ans in zip(cases, outs):
+        desc = {'kind': 'construct', 'spec': jsonable_spec(s)}
+        if ans == 'err:opposite':
+            ctx.hit('frame/opposite(oracle only)')
+            ctx.case((s['cls'], 'frame', 'opposite'))
+            continue
+        ctx.hit('frame/' + s['cls'])
+        ctx.case((s['cls'], 'frame') + tuple(sorted(exp)))
+        m = parse_ans(ans)
+        if m is None or any(not close(m[k], v, 4e-12) for k, v in exp.items()):
+            ctx.disagree(desc, {k: np.asarray(v).tolist() for k, v in exp.items()}, ans, stream='frame')
+
+
 def run_points(ctx, specs, npts):
     """pointwise correspondence + oracle"""
     cases, lines = [], []
+    built = []
     for s in specs:
         st, g = guarded(lambda: build(s))
         sig = variant_sig(s['cls'], s['how'], s['variant'])
@@ -839,6 +913,7 @@ def run_points(ctx, specs, npts):
             ctx.violation('constructor frame {} how={} flags={}'.format(
                 s['cls'], s['how'], '+'.join(sorted(k for k in s['variant'] if s['variant'][k]))),
                 msg, {'kind': 'construct', 'spec': jsonable_spec(s)})
+        built.append((s, g))
         aligned = True
         if s.get('det', 'flat') != 'flat':
             sta, al = guarded(lambda: curved_alignment(g.detector))
@@ -862,6 +937,7 @@ def run_points(ctx, specs, npts):
                 continue
             cases.append((s, g, ang, dp, r, sig, aligned))
             lines.append(line)
+    run_frames(ctx, built)
     outs = core.run_driver('C19', lines)
     for (s, g, ang, dp, r, sig, aligned), ans in zip(cases, outs):
         tol = TOL * (1 + scale_of(s, g, ang if not isinstance(ang, tuple) else 0.0)) * 4
